@@ -150,7 +150,8 @@ def gen_tables():
         raise GenError("isprime_Tabule/Tabule2 do not read TP/TP2 any more (%s/%s)" % (K["T1_TABLE"], K["T2_TABLE"]))
     # --- dispatch of isprime (givintprime.h)
     b = func_body(ph, r"int\s+isprime\s*\(\s*const\s+Rep\s*&\s*n\s*,\s*int\s+r\s*=\s*\w+\s*\)\s*const\s*\{", "IntPrimeDom::isprime")
-    md = re.search(r"(GIVARO_IS\w+)\s*\(\s*n\s*,\s*(\w+)\s*\)\s*\?\s*isprime_Tabule\s*\(\s*\(int32_t\)\s*convert\s*\(\s*l\s*,\s*n\s*\)\s*\)\s*:\s*"
+    md = re.search(r"(?:(GIVARO_IS\w+)\s*\(\s*n\s*,\s*(\w+)\s*\)\s*\?\s*0\s*:\s*)?"
+                   r"(GIVARO_IS\w+)\s*\(\s*n\s*,\s*(\w+)\s*\)\s*\?\s*isprime_Tabule\s*\(\s*\(int32_t\)\s*convert\s*\(\s*l\s*,\s*n\s*\)\s*\)\s*:\s*"
                    r"(GIVARO_IS\w+)\s*\(\s*n\s*,\s*(\w+)\s*\)\s*\?\s*isprime_Tabule2\s*\(\s*\(int32_t\)\s*convert\s*\(\s*l\s*,\s*n\s*\)\s*\)\s*:\s*"
                    r"local_prime\s*\(\s*n\s*,\s*r\s*\)", b)
     if not md:
@@ -158,7 +159,15 @@ def gen_tables():
     cmpmac = {}
     for name, op in re.findall(r"#\s*define\s+(GIVARO_IS\w+)\s*\(\s*a\s*,\s*b\s*\)\s*\(\s*\(a\)\s*(<=|>=|<|>)\s*\(b\)\s*\)", ph):
         cmpmac[name] = op
-    for i, (cm, bd) in enumerate(((md.group(1), md.group(2)), (md.group(3), md.group(4)))):
+    # optional leading guard  n < k ? 0 :   (present once isprime rejects n < 2 before looking at the tables)
+    if md.group(1):
+        if cmpmac.get(md.group(1)) not in ("<", "<="):
+            raise GenError("isprime guard uses comparison %s = '%s'" % (md.group(1), cmpmac.get(md.group(1))))
+        K["ISPRIME_HAS_GUARD"] = True
+        K["ISPRIME_GUARD"] = ev(md.group(2), mac) + (1 if cmpmac[md.group(1)] == "<=" else 0)
+    else:
+        K["ISPRIME_HAS_GUARD"], K["ISPRIME_GUARD"] = False, 0
+    for i, (cm, bd) in enumerate(((md.group(3), md.group(4)), (md.group(5), md.group(6)))):
         if cmpmac.get(cm) not in ("<", "<="):
             raise GenError("isprime dispatch uses comparison %s = '%s'" % (cm, cmpmac.get(cm)))
         # normalise n <= b to n < b+1
@@ -200,6 +209,14 @@ def gen_tables():
     m, vals = array_init(pc, r"static\s+const\s+unsigned\s+short\s+primes\s*\[\s*\]()", mac, "isprimepower's primes[]")
     K["PP_PRIMES"] = vals
     K["SMALLEST_OMITTED_PRIME"] = ev("SMALLEST_OMITTED_PRIME", mac)
+    b = func_body(pc, r"unsigned\s+int\s+IntPrimeDom::isprimepower\s*\([^)]*\)\s*const\s*\{", "IntPrimeDom::isprimepower")
+    K["IPP_NEG_GUARD"] = bool(re.search(r"if\s*\(\s*u\s*<\s*0\s*\)\s*return\s+0\s*;", b))
+    K["IPP_RECURSE"] = bool(re.search(r"isprimepower\s*\(", b))
+    K["IPP_ZERO_RET"] = None
+    m = re.search(r"if\s*\(\s*usize\s*==\s*0\s*\)\s*return\s+(\w+)\s*;", b)
+    if not m:
+        raise GenError("isprimepower left the translated shape (if (usize == 0) return k;)")
+    K["IPP_ZERO_RET"] = ev(m.group(1), mac)
     # --- factor(): primorials and the two trial-division macros
     fh = open(os.path.join(vf.REPO, SRC["factor_h"]), errors="replace").read()
     fhc = strip_comments(fh)
@@ -220,6 +237,13 @@ def gen_tables():
             raise GenError("macro %s left the translated shape (chain of isZero(mod(tmp,n,p))?p: ... :d)" % name)
         K[key + "_TESTS"] = [(int(a), int(b)) for a, b in pairs]
         K[key + "_DEFAULT"] = int(md.group(1))
+    b = func_body(fhc, r"Rep\s*&\s*primefactor\s*\([^)]*\)\s*const\s*\{", "IntFactorDom::primefactor")
+    if not re.search(r"while\s*\(\s*\(\s*iffactorprime\s*\(\s*r\s*,\s*n\s*,\s*0\s*\)\s*==\s*1\s*\)", b):
+        raise GenError("primefactor left the translated shape (while ((iffactorprime(r,n,0) == 1) && ...) {})")
+    K["PRIMEFACTOR_GUARD"] = bool(re.search(r"GIVARO_ISGT\s*\(\s*n\s*,\s*1\s*\)|\(\s*n\s*>\s*1\s*\)", b))
+    fi = read_src("factor_inl")
+    b = func_body(fi, r"void\s+IntFactorDom<MyRandIter>::set\s*\(\s*Container\s*&\s*Lf\s*,\s*const\s+Rep\s*&\s*n\s*\)\s*const\s*\{", "IntFactorDom::set(Lf, n)")
+    K["SET1_ABS"] = bool(re.search(r"Rep::neg\s*\(\s*nn\s*,\s*n\s*\)", b))
     # --- givprimes16.C
     pt = read_src("primes16_C")
     m = re.search(r"Primes16::_size\s*=\s*(\w+)\s*;", pt)
@@ -251,6 +275,10 @@ def coq_of_tables(K):
             "SMALLEST_OMITTED_PRIME", "PROD_FIRST", "PROD_SECOND", "FIRST_DEFAULT", "SECOND_DEFAULT", "PRIMES16_SIZE"]
     for s in scal:
         L.append("Definition %s : Z := %s." % (s, "(%d)" % K[s] if K[s] < 0 else "%d" % K[s]))
+    for s in ("ISPRIME_GUARD", "IPP_ZERO_RET"):
+        L.append("Definition %s : Z := %s." % (s, "(%d)" % K[s] if K[s] < 0 else "%d" % K[s]))
+    for s in ("ISPRIME_HAS_GUARD", "IPP_NEG_GUARD", "IPP_RECURSE", "PRIMEFACTOR_GUARD", "SET1_ABS"):
+        L.append("Definition %s : bool := %s." % (s, "true" if K[s] else "false"))
     for s in ("IP", "IP2", "PP_PRIMES", "PRIMES16"):
         L.append("Definition %s : list Z :=\n  %s." % (s, coq_list(K[s])))
     for s in ("FIRST_TESTS", "SECOND_TESTS"):
